@@ -8,10 +8,15 @@ CONSTANTS IDS, RANGE, K, ATOMIC, FULL, STORAGE
 
 P0 == [st |-> [meta |-> TRUE], tiers |-> <<>>, cnt |-> 0]
 
+\* a handle identity that nothing refers to any more (a caller may still hold the handle of a removed torrent);
+\* without AddTracker (FULL = FALSE) nobody keeps a handle and a handle is simply named after its port (h = 0)
+UsedH  == {torrents[i].h : i \in DOMAIN torrents} \cup {o.h : o \in orphans} \cup {pc[c].h : c \in 1 .. K}
+FreshH == CHOOSE n \in 1 .. (2 * K + Cardinality(RANGE) + 2) : n \notin UsedH
+
 MCInit == InitWith([range |-> RANGE, k |-> K, atomic |-> ATOMIC, ret |-> FALSE])
 
 Step(c) ==
-    \/ \E id \in IDS : BeginAdd(c, id, 0, [explicit |-> TRUE, fail |-> IF STORAGE THEN "any" ELSE "none", p |-> P0])
+    \/ \E id \in IDS : BeginAdd(c, id, IF FULL THEN FreshH ELSE 0, [explicit |-> TRUE, fail |-> IF STORAGE THEN "any" ELSE "none", p |-> P0])
     \/ \E out \in ports \cup {0} : AddTakeViol(c, out) = "" /\ AddTakeUpd(c, out)
     \/ \E out \in {"dup", "storage", "pass"} : At(c, "Add", "check") /\ AddCheckViol(c, out) = "" /\ AddCheckUpd(c, out)
     \/ \E ok \in (IF FULL THEN BOOLEAN ELSE {TRUE}) : AddWrite(c, ok)
@@ -42,10 +47,10 @@ MCNext ==
     /\ \/ \E c \in Callers : Step(c)
        \/ \E corrupt \in {{}} \cup (IF FULL THEN {{i} : i \in DOMAIN db} ELSE {}) : MCReopen(corrupt)
        \/ MCCrashClose
-       \/ FULL /\ Quiescent /\ invalid # {} /\ CleanUpd /\ UNCHANGED pc
+       \/ FULL /\ Quiescent /\ invalid # {} /\ CleanUpd(ATOMIC) /\ UNCHANGED pc
        \/ FULL /\ Quiescent /\ \E id \in DOMAIN torrents, v \in {0, 1} : BumpUpd(id, v) /\ UNCHANGED pc
 
 MCSpec == MCInit /\ [][MCNext]_vars
 
-\* symmetric roles of callers are not exploited (K is 2); handles are named after their port
+\* symmetric roles of callers are not exploited (K is 2)
 =============================================================================
